@@ -67,6 +67,13 @@ theorem C17_retriable_table (cfg : Cfg) (e : GErr) (h : isKafka e = true) :
 theorem C17_fatal_table (e : GErr) (h : isKafka e = false) : (rejoinRow false e).act = .fatal :=
   Afkak.Group.Tables.nonKafka_fatal e h
 
+/-- UnknownMemberId and InvalidGroupId — the coordinator has forgotten the member — clear the member
+    id in the source's table (whether or not stopping) and are never ignored, so the next JoinGroup
+    quotes the empty id and the coordinator can let the member back in. -/
+theorem C17_forgotten_member_resets (stopping : Bool) (e : GErr) (h : forgetsMember e = true) :
+    (rejoinRow stopping e).clearMember = true ∧ (rejoinRow stopping e).act ≠ .ignore :=
+  Afkak.Group.Tables.forgets_clears stopping e h
+
 /-! Non-vacuity: an event list with failures at several steps of the join protocol that satisfies
 the hypothesis, on which the member is NOT trivially idle-free (it goes through retry timers). -/
 def exFaults : List Ev :=
@@ -84,10 +91,12 @@ C17_fatal_surfaces_counterexample
 C17_stable_heartbeat
 C17_retriable_table
 C17_fatal_table
+C17_forgotten_member_resets
 -/
 /- OPEN_STATEMENTS
 C17_never_idle
 C17_fatal_surfaces
 C17_retriable_rejoins
 C17_rejoins_bounded
+C17_fresh_after_eviction
 -/
